@@ -112,3 +112,16 @@ Lemma example_bystander :
   /\ resolve_ref w3k m_by [x_; r_] = Some (OGlob (RPy [a_] q_) r_)
   /\ length (m_imports m_by) = 2.
 Proof. vm_compute. repeat split; reflexivity. Qed.
+
+(* Case 3 under the repaired variant (0b4a7b3): from .b import b  in c/k.py, package c/b moved into d *)
+Definition w6 : world :=
+  {| w_l := [RDir [c_]; RPy [c_] INIT; RDir [c_; b_]; RPy [c_; b_] INIT; RPy [c_; b_] b_; RDir [a_]; RPy [a_] INIT];
+     w_g := [(RPy [c_; b_] b_, [f_])] |}.
+Definition m_case3 := mk [c_] [IFrom 1 [b_] [(b_, None)]] [[b_; f_]].
+
+Lemma case3_examples :
+  breaks_move repaired w6 (RDir [c_; b_]) [a_] m_case3 = false
+  /\ breaks_move {| v_relctx := true; v_rootfrom := true; v_case3abs := false |} w6 (RDir [c_; b_]) [a_] m_case3 = true
+  /\ move_module_text repaired w6 (RDir [c_; b_]) [a_] m_case3
+     = Done (mk [c_] [IFrom 0 [a_; b_] [(b_, None)]] [[b_; f_]]).
+Proof. vm_compute. repeat split; reflexivity. Qed.
